@@ -1,4 +1,5 @@
 import Ptn.C02.TruncWF
+import Ptn.C02.BuildLabels
 /-! # Tree-level structural corollaries for C10 (truncation), proved on the structural TTN model of C02
 
 `Ptn/C02/Composite.lean` models, line by line,
@@ -16,31 +17,121 @@ import Ptn.C02.TruncWF
 * `svd_truncation` is a sequence of `move` events (`move_orthogonalization_center`) and `contractSplit`
   events (`contract_and_split_with_parent`).
 
-`t.N k` is the node with identifier `k` (`none`: no such node).
+`t.N k` is the node with identifier `k` (`none`: no such node); `t.openAxes k` are the open axes (label,
+dimension) of node `k` in order; `t.LWF` is the label invariant of C02 (both ends of every bond carry the same
+label and dimension).
 
-**Proved**: well-formedness of the result, same root, same identifier set, same parent of every node, same
-children of every node – for `truncate_node` in the same ORDER; each canonicalisation move `c → parent`
-puts `c` LAST among its parent's children, each `contract_and_split_with_parent(c, parent)` puts `c`
-FIRST (exact statements: `Ptn.C06.centre_move_structure_partial`, `contract_split_structure_partial`).
-
-**Not proved (hence `_partial`)**: that every node keeps its open legs (labels, order and dimensions) and
-that, among the leg dimensions, only bond dimensions change.  The model computes them – `C02 rectrunc …`
-prints the open labels and the shape of every node – but there is no theorem about them.  Core Lean only. -/
+**Proved**: well-formedness and the label invariant of the result, same root, same identifier set, same
+parent of every node, same children of every node – for `truncate_node` in the same ORDER; each
+canonicalisation move `c → parent` puts `c` LAST among its parent's children, each
+`contract_and_split_with_parent(c, parent)` puts `c` FIRST; and **every node keeps exactly its open legs –
+same labels, same order, same dimensions – so only bond dimensions change**.  The `…_partial` theorems are the
+structure-only versions (no hypothesis on the labels).  Core Lean only. -/
 namespace Ptn.C10
 open Ptn.C02
 
+/-! ### structure and labels -/
+
 /-- **`truncate_node(n)`** (whole recursion below `n`, any admissible temporary identifiers, any kept
-    dimensions): the result is well-formed and has the same root, the same identifiers, and every node has
-    the same parent and the same children list, order included. -/
+    dimensions): the result is well-formed and label-consistent, has the same root, the same identifiers, every
+    node has the same parent and the same children list (order included) and exactly the open legs it had. -/
+theorem truncate_node_structure {t t' : TTN} {ids : TTN.TempIds} {kdim : Id → Nat} {fuel : Nat}
+    {n : Id} (h : t.WF) (hl : t.LWF) (hids : TempOK t.S ids)
+    (hs : TTN.truncateNode fuel t n ids kdim = some t') :
+    t'.WF ∧ t'.LWF ∧ t'.root = t.root ∧
+    (∀ k, t'.N k = none ↔ t.N k = none) ∧
+    (∀ k m, t.N k = some m → ∃ m', t'.N k = some m' ∧ m'.parent = m.parent ∧ m'.children = m.children) ∧
+    (∀ k, t'.openAxes k = t.openAxes k) := by
+  obtain ⟨w, R, S⟩ := truncate_node_full fuel t t' n (TTN.WFX.ofLWF h hl)
+    (fun _ k hk => openAxes_none (N_none_of_S hk)) hids hs
+  exact ⟨w.wf, w.lwf trivial, R, (S_eq_explicit S).1, (S_eq_explicit S).2, w.op trivial⟩
+
+/-- **`recursive_truncation`** between its two canonicalisations. -/
+theorem recursive_truncation_core_structure {t t' : TTN} {kdim : Id → Nat} (h : t.WF) (hl : t.LWF)
+    (hs : t.recursiveTruncation kdim = some t') :
+    t'.WF ∧ t'.LWF ∧ t'.root = t.root ∧
+    (∀ k, t'.N k = none ↔ t.N k = none) ∧
+    (∀ k m, t.N k = some m → ∃ m', t'.N k = some m' ∧ m'.parent = m.parent ∧ m'.children = m.children) ∧
+    (∀ k, t'.openAxes k = t.openAxes k) := by
+  obtain ⟨w, l, R, S, o⟩ := recursive_truncation_labels h hl hs
+  exact ⟨w, l, R, (S_eq_explicit S).1, (S_eq_explicit S).2, o⟩
+
+/-- **`recursive_truncation`** as a whole: `canonical_form(root)` (a run `es₁` of centre moves), the
+    truncation, `canonical_form(root)` again (`es₂`).  Well-formed, label-consistent result; same root, same
+    identifiers, same parent of every node, same children of every node up to order (the order is changed by the
+    centre moves only); **every node keeps exactly its open legs, in order, with their dimensions – only bond
+    dimensions change**. -/
+theorem recursive_truncation_structure {t t1 t2 t' : TTN} {es1 es2 : List TdvpEvent}
+    {kdim : Id → Nat} (h : t.WF) (hl : t.LWF) (h1 : TdvpRun t es1 t1)
+    (h2 : t1.recursiveTruncation kdim = some t2) (h3 : TdvpRun t2 es2 t') :
+    t'.WF ∧ t'.LWF ∧ t'.root = t.root ∧
+    (∀ k, t'.N k = none ↔ t.N k = none) ∧
+    (∀ k m, t.N k = some m →
+      ∃ m', t'.N k = some m' ∧ m'.parent = m.parent ∧ m'.children.Perm m.children) ∧
+    (∀ k, t'.openAxes k = t.openAxes k) := by
+  obtain ⟨w1, l1, R1, E1, o1⟩ := tdvp_run_labels h hl h1
+  obtain ⟨w2, l2, R2, S2, o2⟩ := recursive_truncation_labels w1 l1 h2
+  obtain ⟨w3, l3, R3, E3, o3⟩ := tdvp_run_labels w2 l2 h3
+  rw [S2] at E3
+  exact ⟨w3, l3, R3.trans (R2.trans R1), (treeEq_explicit (E1.trans E3)).1, (treeEq_explicit (E1.trans E3)).2,
+    fun k => (o3 k).trans ((o2 k).trans (o1 k))⟩
+
+/-- Reading of "the lower node of the pair `{a, b}` has become the first child of the upper one, nothing
+    else has changed". -/
+def PromotedIn (t t' : TTN) (a b : Id) : Prop :=
+  ∃ top bot Tn, ((top = a ∧ bot = b) ∨ (top = b ∧ bot = a)) ∧ t.N top = some Tn ∧ bot ∈ Tn.children ∧
+    (∀ k, k ≠ top → t'.S k = t.S k) ∧
+    t'.S top = some (Tn.parent, bot :: Tn.children.erase bot)
+
+theorem promotedIn_of {t t' : TTN} {a b : Id} (h : t.WF)
+    (hc : ∃ A, t.N a = some A ∧
+      ((b ∈ A.children ∧ t'.S = promoteS t.S a b) ∨ (A.parent = some b ∧ t'.S = promoteS t.S b a))) :
+    PromotedIn t t' a b := by
+  obtain ⟨A, hA, hcase⟩ := hc
+  rcases hcase with ⟨hb, S'⟩ | ⟨hp, S'⟩
+  · exact ⟨a, b, A, Or.inl ⟨rfl, rfl⟩, hA, hb, promote_explicit hA S'⟩
+  · obtain ⟨B, hB, hm⟩ := parent_node h hA hp
+    exact ⟨b, a, B, Or.inr ⟨rfl, rfl⟩, hB, hm, promote_explicit hB S'⟩
+
+/-- **`contract_and_split_with_parent(a, b)`** (also with the pair given the other way round; any truncated
+    bond dimension): the lower node of the pair becomes the FIRST child of the upper one, nothing else changes in
+    the structure, and every node keeps exactly its open legs. -/
+theorem contract_split_structure {t t' : TTN} {a b cid : Id} {bd : Nat} (h : t.WF) (hl : t.LWF)
+    (hfresh : t.N cid = none) (hs : t.contractSplit a b cid bd = some t') :
+    t'.WF ∧ t'.LWF ∧ t'.root = t.root ∧ PromotedIn t t' a b ∧ ∀ k, t'.openAxes k = t.openAxes k := by
+  obtain ⟨w, R, hc⟩ := contract_split_full (TTN.WFX.ofLWF h hl) hfresh hs
+  exact ⟨w.wf, w.lwf trivial, R, promotedIn_of h hc, w.op trivial⟩
+
+/-- The events of `svd_truncation`: centre moves and `contract_and_split_with_parent`. -/
+def IsSvdEvent : TdvpEvent → Prop
+  | .move _ _ _ _ => True
+  | .contractSplit _ _ _ _ => True
+  | _ => False
+
+/-- **`svd_truncation`** – any run of centre moves and `contract_and_split_with_parent`s (the temporary
+    identifiers being unused when they are taken): well-formed, label-consistent result, same root, same
+    identifiers, same parent of every node, same children of every node up to order; **every node keeps exactly
+    its open legs – only bond dimensions change**. -/
+theorem svd_truncation_structure {t t' : TTN} {es : List TdvpEvent} (h : t.WF) (hl : t.LWF)
+    (_hev : ∀ e ∈ es, IsSvdEvent e) (hr : TdvpRun t es t') :
+    t'.WF ∧ t'.LWF ∧ t'.root = t.root ∧
+    (∀ k, t'.N k = none ↔ t.N k = none) ∧
+    (∀ k m, t.N k = some m →
+      ∃ m', t'.N k = some m' ∧ m'.parent = m.parent ∧ m'.children.Perm m.children) ∧
+    (∀ k, t'.openAxes k = t.openAxes k) := by
+  obtain ⟨w, l, R, E, o⟩ := tdvp_run_labels h hl hr
+  exact ⟨w, l, R, (treeEq_explicit E).1, (treeEq_explicit E).2, o⟩
+
+/-! ### structure only (no hypothesis on the labels) -/
+
 theorem truncate_node_structure_partial {t t' : TTN} {ids : TTN.TempIds} {kdim : Id → Nat} {fuel : Nat}
     {n : Id} (h : t.WF) (hids : TempOK t.S ids) (hs : TTN.truncateNode fuel t n ids kdim = some t') :
     t'.WF ∧ t'.root = t.root ∧
     (∀ k, t'.N k = none ↔ t.N k = none) ∧
     (∀ k m, t.N k = some m → ∃ m', t'.N k = some m' ∧ m'.parent = m.parent ∧ m'.children = m.children) := by
-  obtain ⟨w, R, S⟩ := truncate_node_full fuel t t' n h hids hs
-  exact ⟨w, R, S_eq_explicit S⟩
+  obtain ⟨w, R, S⟩ := truncate_node_full fuel t t' n (TTN.WFX.ofWF h) (fun hp => hp.elim) hids hs
+  exact ⟨w.wf, R, S_eq_explicit S⟩
 
-/-- **`recursive_truncation`** between its two canonicalisations. -/
 theorem recursive_truncation_core_structure_partial {t t' : TTN} {kdim : Id → Nat} (h : t.WF)
     (hs : t.recursiveTruncation kdim = some t') :
     t'.WF ∧ t'.root = t.root ∧
@@ -49,10 +140,6 @@ theorem recursive_truncation_core_structure_partial {t t' : TTN} {kdim : Id → 
   obtain ⟨w, R, S⟩ := recursive_truncation_full h hs
   exact ⟨w, R, S_eq_explicit S⟩
 
-/-- **`recursive_truncation`** as a whole: `canonical_form(root)` (a run `es₁` of centre moves), the
-    truncation, `canonical_form(root)` again (`es₂`).  Well-formed result, same root, same identifiers, same
-    parent of every node, same children of every node up to order (the order is changed by the centre
-    moves only: the moved node becomes the last child of its parent). -/
 theorem recursive_truncation_structure_partial {t t1 t2 t' : TTN} {es1 es2 : List TdvpEvent}
     {kdim : Id → Nat} (h : t.WF) (h1 : TdvpRun t es1 t1) (h2 : t1.recursiveTruncation kdim = some t2)
     (h3 : TdvpRun t2 es2 t') :
@@ -66,30 +153,15 @@ theorem recursive_truncation_structure_partial {t t1 t2 t' : TTN} {es1 es2 : Lis
   rw [S2] at E3
   exact ⟨w3, R3.trans (R2.trans R1), treeEq_explicit (E1.trans E3)⟩
 
-/-- **`contract_and_split_with_parent(a, b)`** (also with the pair given the other way round): the lower
-    node of the pair becomes the FIRST child of the upper one; nothing else changes. -/
 theorem contract_split_structure_partial {t t' : TTN} {a b cid : Id} {bd : Nat} (h : t.WF)
     (hfresh : t.N cid = none) (hs : t.contractSplit a b cid bd = some t') :
     t'.WF ∧ t'.root = t.root ∧
     ∃ top bot Tn, ((top = a ∧ bot = b) ∨ (top = b ∧ bot = a)) ∧ t.N top = some Tn ∧ bot ∈ Tn.children ∧
       (∀ k, k ≠ top → t'.S k = t.S k) ∧
       t'.S top = some (Tn.parent, bot :: Tn.children.erase bot) := by
-  obtain ⟨w, R, A, hA, hcase⟩ := contract_split_full h hfresh hs
-  refine ⟨w, R, ?_⟩
-  rcases hcase with ⟨hb, S'⟩ | ⟨hp, S'⟩
-  · exact ⟨a, b, A, Or.inl ⟨rfl, rfl⟩, hA, hb, promote_explicit hA S'⟩
-  · obtain ⟨B, hB, hm⟩ := parent_node h hA hp
-    exact ⟨b, a, B, Or.inr ⟨rfl, rfl⟩, hB, hm, promote_explicit hB S'⟩
+  obtain ⟨w, R, hc⟩ := contract_split_full (TTN.WFX.ofWF h) hfresh hs
+  exact ⟨w.wf, R, promotedIn_of h hc⟩
 
-/-- The events of `svd_truncation`: centre moves and `contract_and_split_with_parent`. -/
-def IsSvdEvent : TdvpEvent → Prop
-  | .move _ _ _ _ => True
-  | .contractSplit _ _ _ _ => True
-  | _ => False
-
-/-- **`svd_truncation`** – any run of centre moves and `contract_and_split_with_parent`s (the temporary
-    identifiers being unused when they are taken): well-formed result, same root, same identifiers, same
-    parent of every node, same children of every node up to order. -/
 theorem svd_truncation_structure_partial {t t' : TTN} {es : List TdvpEvent} (h : t.WF)
     (_hev : ∀ e ∈ es, IsSvdEvent e) (hr : TdvpRun t es t') :
     t'.WF ∧ t'.root = t.root ∧
@@ -149,5 +221,21 @@ example : ∃ t t', TRun TTN.empty buildOps t ∧
       (.cons rfl rfl (.cons rfl rfl (.cons rfl rfl (.cons rfl rfl (.nil _)))))))),
     (by intro e he; simp at he; rcases he with rfl | rfl | rfl | rfl | rfl | rfl | rfl | rfl <;> trivial),
     rfl⟩
+
+/-- The same network is label-consistent (built with matching bond labels `100`, `101`, `102`), so the
+    hypotheses of the label-level theorems are satisfiable; after the truncation every node has the open axes
+    it had. -/
+example : ∃ t t', TRunL TTN.empty buildOps t ∧ t.WF ∧ t.LWF ∧
+    t.recursiveTruncation (fun c => if c = 2 then 2 else 1) = some t' ∧
+    t'.openAxes 1 = [⟨0, 2⟩] ∧ t'.openAxes 2 = [⟨1, 2⟩] ∧ t'.openAxes 3 = [⟨2, 2⟩] ∧ t'.openAxes 4 = [⟨3, 3⟩] :=
+  ⟨_, _, .cons ⟨rfl, rfl⟩ trivial rfl (.cons trivial ⟨_, rfl, rfl⟩ rfl (.cons trivial ⟨_, rfl, rfl⟩ rfl
+      (.cons trivial ⟨_, rfl, rfl⟩ rfl (.nil _)))),
+    (builtL_labels (show TRunL TTN.empty buildOps _ from
+      .cons ⟨rfl, rfl⟩ trivial rfl (.cons trivial ⟨_, rfl, rfl⟩ rfl (.cons trivial ⟨_, rfl, rfl⟩ rfl
+        (.cons trivial ⟨_, rfl, rfl⟩ rfl (.nil _)))))).1,
+    (builtL_labels (show TRunL TTN.empty buildOps _ from
+      .cons ⟨rfl, rfl⟩ trivial rfl (.cons trivial ⟨_, rfl, rfl⟩ rfl (.cons trivial ⟨_, rfl, rfl⟩ rfl
+        (.cons trivial ⟨_, rfl, rfl⟩ rfl (.nil _)))))).2,
+    rfl, rfl, rfl, rfl, rfl⟩
 
 end Ptn.C10
